@@ -126,6 +126,8 @@ def gen_spec(r):
         spec["select"] = [g.num([src], 1) if r.random() < 0.6 else ("col", src.name, r.choice(COLS), src) for _ in cols]
         # the statement kind given by a row-less insert() / replace() / insert_or_replace() before the SELECT source
         spec["form"] = r.choice([None, None, "insert", "replace", "insert_or_replace"])
+        # a row window on the selected rows (ordered by the source key so that the window is determined): limit 0 included
+        spec["window"] = (r.choice([0, 0, 1, 2, 5]), r.choice([None, None, 0, 1, 3])) if r.random() < 0.4 else None
         if spec["form"] in ("replace", "insert_or_replace") and "id" not in cols and r.random() < 0.7:
             spec["columns"] = cols = ["id"] + cols[:3]          # keys that collide with existing rows
             spec["select"] = [("col", src.name, "id", src)] + spec["select"][:len(cols) - 1]
@@ -219,6 +221,9 @@ def to_py(spec):
         cols = ".columns(%s)" % ", ".join(repr(c) for c in spec["columns"])
         if spec.get("form"):
             cols += ".%s()" % spec["form"]
+        if spec.get("window"):
+            lim, off = spec["window"]
+            sel += ".orderby(%s.id).limit(%d)" % (sv, lim) + ("" if off is None else ".offset(%d)" % off)
         if br:
             lines.append("p = %s.into(%s)%s.from_(%s)" % (Q, tv, cols, sv))
             lines.append("sibling = p.select(%s.id).where(%s.id == 1)" % (sv, sv))
@@ -267,6 +272,9 @@ def to_ref(spec):
                                                               ", ".join(S.sql_expr(e) for e in spec["select"]), src.table)
             if spec["where"] is not None:
                 sql += " WHERE " + S.sql_expr(spec["where"])
+            if spec.get("window"):
+                lim, off = spec["window"]
+                sql += ' ORDER BY "%s"."id" LIMIT %d' % (src.table, lim) + ("" if off is None else " OFFSET %d" % off)
         elif k == "update":
             sql = 'UPDATE "%s" SET %s' % (t.table, ", ".join('"%s" = %s' % (c, S.sql_expr(e)) for c, e, _ in spec["sets"]))
             if spec["where"] is not None:
